@@ -176,6 +176,10 @@ func replayLoop(in sx.V, pressure bool) (sx.V, sx.V) {
 			}
 		case 6:
 			w.timeoutScan()
+		case 12:
+			a := string(sx.Bytes(f[1]))
+			w.cfg.undial[a] = sx.Int(f[2]) == 0
+			w.record(sx.L(sx.I(12), sx.S(a), sx.Bool(!w.cfg.undial[a])))
 		case 7:
 			// the ticker's probe: the node is chosen by math/rand, which a replay cannot steer; the
 			// round is run and recorded as it happens
